@@ -42,9 +42,12 @@ let rec drop n l = if n = 0 then l else match l with [] -> [] | _ :: t -> drop (
 
 let strip s =
   let n = String.length s in
-  if n > 0 && s.[n-1] = '!' then String.sub s 0 (n-1) else s
+  if n > 0 && (s.[n-1] = '!' || s.[n-1] = '~') then String.sub s 0 (n-1) else s
 
-let both i s = Printf.printf "I %s S %s\n" i s
+(* "op~": an input the real call paths cannot deliver - only the correspondence
+   model-vs-assembly is reported (no S: not a statement about the property) *)
+let no_spec = ref false
+let both i s = if !no_spec then Printf.printf "I %s\n" i else Printf.printf "I %s S %s\n" i s
 let one i = Printf.printf "I %s\n" i
 let pair (a, b) = string_of_z a ^ "," ^ string_of_z b
 
@@ -56,6 +59,7 @@ let () = iter_lines (fun line ->
   match split_ws line with
   | [] -> ()
   | op :: args ->
+    no_spec := (String.length op > 0 && op.[String.length op - 1] = '~');
     let a = zs args in
     match strip op with
     | "idct" -> both (show_res (ArchLane16.lane16_idct (take 16 a) (drop 16 a)))
